@@ -192,7 +192,20 @@ MUTANTS = [
      '        rsp.status = 0xFF00\n        rsp.data_set = dsutils.encode(data_set,', ['C16']),
     ('find-scu-drops-dataset-of-ff01', 'sopclass.py', '        if response.data_set:\n            data_set = dsutils.decode(response.data_set,\n                                      ctx.supported_ts.is_implicit_VR,\n                                      ctx.supported_ts.is_little_endian)\n        else:\n            data_set = None\n        status = statuses.Status(response.status, dimsemessages.CFindRSPMessage)',
      '        if response.data_set and response.status != 0xFF01:\n            data_set = dsutils.decode(response.data_set,\n                                      ctx.supported_ts.is_implicit_VR,\n                                      ctx.supported_ts.is_little_endian)\n        else:\n            data_set = None\n        status = statuses.Status(response.status, dimsemessages.CFindRSPMessage)', ['C16']),
-    ('cancel-status-pending', 'statuses.py', 'XXX-never', 'YYY', []),
+    ('msgid-global', '__init__.py',
+     "    msg_id = getattr(_tls, 'msg_id', None)\n    if msg_id is None:\n        _tls.msg_id = 1\n        return _tls.msg_id\n\n    _tls.msg_id += 1\n    return _tls.msg_id",
+     "    global _MSG\n    cur = globals().get('_MSG', 0)\n    nxt = cur + 1\n    _MSG = nxt % 4 + 1\n    return _MSG", ['C20']),
+    ('accepted-contexts-on-ae', 'asceprovider.py',
+     '        self.accepted_contexts = {}\n\n    def send(self, dimse_msg, pc_id):',
+     "        self.accepted_contexts = local_ae.__dict__.setdefault('_acc', {})\n\n    def send(self, dimse_msg, pc_id):", ['C20']),
+    ('move-counter-late-again', 'sopclass.py', '            status = service(data_set, completed)\n            completed += 1\n',
+     '            status = service(data_set, completed)\n', ['C19']),
+    ('move-n0-falls-through', 'sopclass.py', '        _send_response(asce, ctx, msg, 0, 0, 0, 0)\n        return\n',
+     '        _send_response(asce, ctx, msg, 0, 0, 0, 0)\n', ['C19']),
+    ('storage-file-nonexclusive', '__init__.py', 'os.O_RDWR | os.O_CREAT | os.O_EXCL | getattr',
+     'os.O_RDWR | os.O_CREAT | getattr', ['C15']),
+    ('store-status-swallowed', 'sopclass.py', "    response, _ = asce.receive()\n    return statuses.Status(response.status, dimsemessages.CStoreRSPMessage)",
+     "    response, _ = asce.receive()\n    return statuses.Status(0 if response.status == 0xB000 else response.status, dimsemessages.CStoreRSPMessage)", ['C15']),
 ]
 
 
